@@ -3,7 +3,7 @@
    scheduling, channel / WaitGroup semantics and defer/recover are the LTS rules (assumed). *)
 From Coq Require Import List Arith Bool String ZArith.
 From Verif Require Import Consts Facts.
-From Verif Require Import Lts DispatchLts DispatchProofsA DispatchProofsB DispatchExamples.
+From Verif Require Import Lts DispatchLts DispatchProofsA DispatchProofsB DispatchProofsE DispatchExamples.
 Import ListNotations.
 Local Open Scope nat_scope.
 
@@ -59,6 +59,23 @@ Theorem C03_all_schedules : forall sess sched,
   C03_ok sess (hist (run (step sess) init sched)) = true.
 Proof. exact C03_model. Qed.
 
+(* what the monitor's verdict means (for ANY history it accepts, e.g. an observed one): when a
+   foreground handler of line k' enters, every foreground invocation of every earlier line has
+   finished (as many Exit/Recovered as Enter so far) and none of a later line has started *)
+Theorem C03_ok_says : forall sess p k' i' a' rest,
+  C03_ok sess (p ++ EvEnter KFg k' i' a' :: rest) = true ->
+  (forall k, k < k' -> ne k p = nc k p) /\ (forall k, k' < k -> ne k p = 0).
+Proof. exact C03_ok_meaning. Qed.
+
+(* ... hence, on the model, for every schedule: *)
+Theorem C03_one_line_at_a_time_in_order : forall sess sched p k' i' a' rest,
+  hist (run (step sess) init sched) = p ++ EvEnter KFg k' i' a' :: rest ->
+  (forall k, k < k' -> ne k p = nc k p) /\ (forall k, k' < k -> ne k p = 0).
+Proof.
+  intros sess sched p k' i' a' rest H. apply (C03_ok_meaning sess p k' i' a' rest).
+  rewrite <- H. apply C03_model.
+Qed.
+
 (* the invariant behind it, for reference: the structural invariant and the relation between the
    monitor's scan state and the LTS state hold in every reachable state *)
 Theorem C03_invariant : forall sess sched, InvAB sess (run (step sess) init sched).
@@ -89,5 +106,7 @@ Example C03_monitor_rejects :
 Proof. repeat split; reflexivity. Qed.
 
 Print Assumptions C03_all_schedules.
+Print Assumptions C03_ok_says.
+Print Assumptions C03_one_line_at_a_time_in_order.
 Print Assumptions C03_invariant.
 Print Assumptions C03_fifo.
